@@ -332,6 +332,9 @@ def gen_s1(rng, nboards=None, table=None):
         else:
             kind = table
         seats[s] = {'kind': kind, 'style': gen_style(rng), 'seed': rng.randrange(1 << 30)}
+        if kind == 'scripted' and rng.random() < 0.06:
+            # shuts down its sending direction after the last message it has to send
+            seats[s]['half_close'] = True
     if table == 'shipped':
         pk = rng.choice(('shipped', 'shipped', 'shipped-pass'))
         for s in rb.SEATS:
